@@ -49,11 +49,24 @@ class CliRules:
         cands = [f for f in prog.functions.values() if any(n['k'] == 'CallExpr' and n['callee'].get('q') == 'getopt_long' for n in walk(f['body']))]
         if len(cands) != 1:
             raise AnalysisBroken('option parser entry (caller of getopt_long) not found: %d' % len(cands))
-        self.entry = cands[0]
+        self.loopfn = cands[0]
         mains = [f for f in prog.functions.values() if f['q'] == 'main']
         if len(mains) != 1:
             raise AnalysisBroken('main not found')
         self.main = mains[0]
+        # the parser entry is what main calls: the function with the option loop itself, or the one that (through a chain of
+        # helpers with one caller each) reaches it
+        def callers_of(fn):
+            return [g for g in prog.functions.values() if g.get('body') is not None and g['id'] != fn['id'] and any(
+                n['k'] in ('CallExpr', 'CXXMemberCallExpr') and (n.get('callee') or {}).get('m') == fn['id'] for n in walk(g['body']))]
+        chain = [self.loopfn]
+        while self.main['id'] not in {g['id'] for g in callers_of(chain[-1])} and len(chain) < 6:
+            cs = callers_of(chain[-1])
+            if len(cs) != 1:
+                break
+            chain.append(cs[0])
+        self.entry = chain[-1]
+        self.entry_chain = list(reversed(chain))        # entry first, the function with the option loop last
         self.codes = self.option_codes()
         v = prog.records.get('vpak_t')
         if v is None:
@@ -774,13 +787,29 @@ class CliRules:
         only on paths on which the validator has just accepted that text (a failed read, an exhausted retry loop ... must not fall
         through to the decode with a rejected or empty text)."""
         prog, rec = self.prog, self.rec
-        fns = []
+        # the functions whose call closure contains both the validator and the decoder and none of whose callees already does
+        direct = {}
         for g in prog.functions.values():
             if g.get('body') is None:
                 continue
-            calls = {(x.get('callee') or {}).get('q') for x in walk(g['body']) if x['k'] == 'CallExpr'}
-            if 'is_valid_b64' in calls and 'base64_to_hex' in calls:
-                fns.append(g)
+            direct[g['id']] = ({(x.get('callee') or {}).get('q') for x in walk(g['body']) if x['k'] == 'CallExpr'},
+                               {(x.get('callee') or {}).get('m') for x in walk(g['body']) if x['k'] in ('CallExpr', 'CXXMemberCallExpr')} - {None})
+        clos = {}
+
+        def closure(fid, depth=0):
+            if fid in clos:
+                return clos[fid]
+            clos[fid] = set()
+            names, callees = direct.get(fid, (set(), set()))
+            out = set(names)
+            if depth < 6:
+                for c_ in callees:
+                    if c_ in direct:
+                        out |= closure(c_, depth + 1)
+            clos[fid] = out
+            return out
+        both = {fid for fid in direct if {'is_valid_b64', 'base64_to_hex'} <= closure(fid)}
+        fns = [prog.functions[fid] for fid in sorted(both) if not any(c_ in both for c_ in direct[fid][1])]
         n = 0
         for g in fns:
             events = []
@@ -1011,12 +1040,30 @@ class CliRules:
     def reset_state(self):
         prog, rec = self.prog, self.rec
         f = self.entry
-        body = f['body'].get('c', [])
-        first_loop = next((i for i, s in enumerate(body) if s['k'] in ('WhileStmt', 'ForStmt', 'DoStmt')), len(body))
-        prefix = body[:first_loop]
+        # what runs before the option loop: in each function of the chain from the entry down, the statements before the call of the
+        # next one; in the last, the statements before its first loop
+        prefix = []
+        chain = getattr(self, 'entry_chain', [f])
+        for i_, g_ in enumerate(chain):
+            body_ = g_['body'].get('c', [])
+            if i_ + 1 < len(chain):
+                nxt = chain[i_ + 1]['id']
+                cut = next((j for j, s_ in enumerate(body_) if any(n['k'] in ('CallExpr', 'CXXMemberCallExpr') and (n.get('callee') or {}).get('m') == nxt for n in walk(s_))), len(body_))
+            else:
+                cut = next((j for j, s_ in enumerate(body_) if s_['k'] in ('WhileStmt', 'ForStmt', 'DoStmt')), len(body_))
+            prefix += body_[:cut]
         # getopt keeps two cursors: optind and (glibc) its position inside a cluster of short options.  A parse that is abandoned inside
         # a cluster ("-edn" rejected at d) leaves the second one behind; glibc clears it only on a full re-initialisation, which
         # is requested by optind = 0 (optind = 1 restarts the argument index only).
+        # statements of same-file helpers called from the prefix count as well (one level)
+        extra_ = []
+        for s_ in prefix:
+            for n in walk(s_):
+                if n['k'] == 'CallExpr' and (n.get('callee') or {}).get('m') in prog.functions:
+                    h_ = prog.functions[n['callee']['m']]
+                    if h_.get('file') == f['file'] and h_.get('body') is not None and h_['id'] not in {c_['id'] for c_ in chain}:
+                        extra_ += h_['body'].get('c', [])
+        prefix = prefix + extra_
         assigns = [n for s in prefix for n in walk(s) if n['k'] == 'BinaryOperator' and n['op'] == '=' and strip(n['lhs']).get('d') == 'G:optind']
         vals = [strip(n['rhs']).get('cv', n['rhs'].get('cv')) for n in assigns]
         full = bool(assigns) and vals[-1] == 0
